@@ -50,6 +50,7 @@ def load_jobs():
     m = importlib.util.module_from_spec(spec); spec.loader.exec_module(m)
     return m.JOBS
 
+KF_OBLIGATIONS = []
 def load_findings():
     p = os.path.join(VERIF, 'known_findings.json')
     if not os.path.exists(p): return []
@@ -359,7 +360,7 @@ def run_job(job, tu, safety, scratch, want_trace=False, only_props=None):
         for res in results:
             desc = res.get('description', ''); name = res.get('property', '')
             props_ = classify_label(desc, name, job['props'][0] if job.get('mode') == 'dfcc' else None)
-            if job.get('count_all_as') and not set(props_) & {'CANARY', 'UNWIND'}: props_ = props_ + [job['count_all_as']]   # C15: the same contracts under another configuration / flavour
+            if job.get('count_all_as') and not set(props_) & {'CANARY', 'UNWIND'} and not any(k in desc for k in KF_OBLIGATIONS): props_ = props_ + [job['count_all_as']]   # (obligations that are listed findings of their own property are not re-counted)   # C15: the same contracts under another configuration / flavour
             if desc.startswith('C11: HFSM2_ASSERT') and job.get('assert_props'): props_ = props_ + list(job['assert_props'])   # the library's own assertions also decide these properties in this job
             ob = {'name': name, 'desc': desc, 'status': res.get('status'), 'props': props_,
                   'function': (res.get('sourceLocation') or {}).get('function', ''), 'line': (res.get('sourceLocation') or {}).get('line', '')}
@@ -465,6 +466,7 @@ def main(argv):
     if not jobs:
         print('no jobs for', prop); return 2
     findings = [f for f in load_findings() if f['property'] == prop and f.get('status', 'open') == 'open']
+    KF_OBLIGATIONS[:] = [f['obligation'] for f in load_findings() if f.get('status', 'open') == 'open']
     scratch = tempfile.mkdtemp(prefix='verif_%s_' % prop, dir=os.environ.get('VERIF_SCRATCH', '/var/tmp'))
     rc = 2
     try:
